@@ -30,6 +30,6 @@ def obligations():
     L.append(Ob('H1.inspect.code3.vbr.le5frames.len12', 'C01_inspect.c', INS_SRC, ['-DMAXLEN=12', '-DCODE=3', '-DVBRBIT=1', '-DCOUNTMAX=5'], unwind=1,
                 unwindset=['harness:13', 'harness.2:49', 'opus_packet_parse_impl:7'], functions=INS_FUN, budget=600,
                 bounds='any bytes in an exact-size object, len 0..12, code 3 VBR with <=5 frames, both framings'))
-    for fsi, sd, tier in ((0, 0, 'quick'), (4, 0, 'quick'), (2, 1, 'quick'), (1, 0, 'thorough'), (3, 0, 'thorough'), (0, 1, 'thorough'), (4, 1, 'thorough')):
+    for fsi, sd, tier in ((0, 0, 'thorough'), (4, 0, 'thorough'), (2, 1, 'thorough'), (1, 0, 'thorough'), (3, 0, 'thorough'), (0, 1, 'thorough'), (4, 1, 'thorough')):
         L.append(native_ob('H2.native_front_end.fs%d.sd%d' % (fsi, sd), fsi, sd, tier, []))
     return L
